@@ -35,4 +35,5 @@ class Post(models.Model):
 class Comment(models.Model):
     text = models.CharField(max_length=50)
     score = models.IntegerField()
+    flag = models.BooleanField(default=False)
     post = models.ForeignKey(Post, null=True, on_delete=models.CASCADE, related_name="comments")
